@@ -86,6 +86,44 @@ pub fn unknown_expr(t: &mut Tape, depth: usize, leaf: UnknownLeaf) -> Expr {
     bin(BinOp::Plus, Expr::Primary(p), num(1.0))
 }
 
+/// a constant expression with a few leaves perturbed: `not` stacked one to three deep, other literal kinds, numeric
+/// strings.  Whether the folder reports anything for these is free; what it reports must be what execution yields.
+pub fn near_constant_expr(t: &mut Tape, depth: usize) -> Expr {
+    fn perturb(e: Expr, t: &mut Tape, left: &mut u32) -> Expr {
+        match e {
+            Expr::Primary(Primary::Lit(Lit::Num(n))) => {
+                if *left > 0 && t.chance(1, 3) {
+                    *left -= 1;
+                    let x = num(n);
+                    match t.pick(8) {
+                        0 => un(UnOp::Not, x),
+                        1 => un(UnOp::Not, un(UnOp::Not, x)),
+                        2 => un(UnOp::Not, un(UnOp::Not, un(UnOp::Not, x))),
+                        3 => un(UnOp::Minus, un(UnOp::Not, x)),
+                        4 => lit(Lit::Bool(true)),
+                        5 => strlit("5"),
+                        6 => lit(Lit::Null),
+                        _ => un(UnOp::Not, un(UnOp::Minus, x)),
+                    }
+                } else {
+                    num(n)
+                }
+            }
+            Expr::Unary { op, operand } => Expr::Unary { op, operand: Box::new(perturb(*operand, t, left)) },
+            Expr::Binary { op, lhs, rhs } => Expr::Binary { op, lhs: Box::new(perturb(*lhs, t, left)), rhs: rhs.into_iter().map(|r| perturb(r, t, left)).collect() },
+            other => other,
+        }
+    }
+    for _ in 0..4 {
+        let mut left = 1 + t.pick(2) as u32;
+        let e = perturb(constant_expr(t, depth), t, &mut left);
+        if !is_constant_shape(&e) && e.validate_ok() {
+            return e;
+        }
+    }
+    un(UnOp::Not, un(UnOp::Not, num(5.0)))
+}
+
 pub fn is_constant_shape(e: &Expr) -> bool {
     match e {
         Expr::Primary(Primary::Lit(Lit::Num(_))) => true,
